@@ -2,6 +2,7 @@
     both layouts, run at exact rationals) and its extraction.
     ExtrOcamlBasic only: Z, positive, Q, nat stay inductive.
     The dispatcher is shared verbatim between ExC01.v and ExC09.v. *)
+From Dino Require Import Model.Sigma Model.Implicit Model.PrimEq Model.Deriv Model.PrimEqFull Model.PrimEqFullFast.
 From Dino Require Import Base.Ops Base.Sums Model.SHT Model.SHTFast Model.FourierR Gen.GridTable Extract.Common.
 Require Extraction.
 Require Import ExtrOcamlBasic.
@@ -100,7 +101,50 @@ Definition run_C09 (cmd : Z) (ints : list Z) (arrs : list (list Q)) : option (li
   | _ => None
   end.
 
+(** *** commands >= 40: whole-state primitive-equation model on the FAST layout (Model/PrimEqFullFast.v).
+    All arrays flat row-major, R = 2*Mh:
+    ints = [M; L; I; J; K; ntr; Mh; Lf; If; Jf; stacked; rev]
+    arrs = [0 f (If x R, unstacked view); 1 p (Mh x Jf x Lf); 2 w (Jf); 3 a (R x Lf); 4 b (R x Lf); 5 sec2_lat (Jf);
+            6 sin_lat (Jf); 7 [radius; angular_velocity; g; R; kappa; eta]; 8 log(centers) (K); 9 boundaries (K+1);
+            10 T_ref (K); 11 orography (R x Lf); 12 vorticity (K x R x Lf); 13 divergence; 14 temperature_variation;
+            15 log_surface_pressure (R x Lf); 16 tracers (ntr x K x R x Lf);
+            17 np.linalg.inv(implicit_matrix) (Lf x (2K+1) x (2K+1))   -- command 42 *)
+Definition fgrid09 (ints : list Z) (arrs : list (list Q)) : @FGrid Q :=
+  let Mh := intn ints 6 in let Lf := intn ints 7 in let If := intn ints 8 in let Jf := intn ints 9 in
+  let R := (2 * Mh)%nat in
+  mkFG (intn ints 0) (intn ints 1) (intn ints 2) (intn ints 3) Mh Lf If Jf (intb ints 10) (intb ints 11)
+       (scalar arrs 7 0) (SHT.arr2 If R (arr arrs 0)) (SHT.arr3 Mh Jf Lf (arr arrs 1)) (arrf arrs 2)
+       (SHT.arr2 R Lf (arr arrs 3)) (SHT.arr2 R Lf (arr arrs 4)) (arrf arrs 5) (arrf arrs 6) (scalar arrs 7 1).
+Definition vcfg09 (ints : list Z) (arrs : list (list Q)) : @PEcfg Q :=
+  mkPE (intn ints 4) (scalar arrs 7 3) (scalar arrs 7 4) (arrf arrs 8) (arrf arrs 9) (arrf arrs 10).
+Definition slice09 (K A B : nat) (l : list Q) (n : nat) : nat -> nat -> nat -> Q :=
+  SHT.arr3 K A B (firstn (K * (A * B)) (skipn (n * (K * (A * B))) l)).
+Definition state09 (ints : list Z) (arrs : list (list Q)) : @State Q :=
+  let K := intn ints 4 in let ntr := intn ints 5 in
+  let R := (2 * intn ints 6)%nat in let Lf := intn ints 7 in
+  mkState (SHT.arr3 K R Lf (arr arrs 12)) (SHT.arr3 K R Lf (arr arrs 13)) (SHT.arr3 K R Lf (arr arrs 14))
+          (SHT.arr2 R Lf (arr arrs 15)) (map (slice09 K R Lf (arr arrs 16)) (seq 0 ntr)).
+Definition state_out09 (K R L : nat) (s : @State Q) : list Q :=
+  SHT.tab3 K R L (s_vort s) ++ SHT.tab3 K R L (s_div s) ++ SHT.tab3 K R L (s_temp s) ++ SHT.tab2 R L (s_lnps s)
+  ++ concat (map (SHT.tab3 K R L) (s_tr s)).
+
+Definition run_C09_full (cmd : Z) (ints : list Z) (arrs : list (list Q)) : option (list Q) :=
+  let K := intn ints 4 in let R := (2 * intn ints 6)%nat in let Lf := intn ints 7 in
+  let q := fgrid09 ints arrs in
+  let c := vcfg09 ints arrs in
+  let grav := scalar arrs 7 2 in
+  let eta := scalar arrs 7 5 in
+  let orog := SHT.arr2 R Lf (arr arrs 11) in
+  match cmd with
+  | 40%Z => Some (state_out09 K R Lf (explicit_terms_full_fast q c grav orog (state09 ints arrs)))
+  | 41%Z => Some (state_out09 K R Lf (implicit_terms_full_fast q c (state09 ints arrs)))
+  | 42%Z => let n := (2 * K + 1)%nat in
+            let invs := SHT.arr3 Lf n n (arr arrs 17) in
+            Some (state_out09 K R Lf (implicit_inverse_full_fast q c eta invs (state09 ints arrs)))
+  | _ => None
+  end.
+
 Definition run (prop cmd : Z) (ints : list Z) (arrs : list (list Q)) : option (list Q) :=
-  run_C09 cmd ints arrs.
+  if Z.leb 40 cmd then run_C09_full cmd ints arrs else run_C09 cmd ints arrs.
 
 Extraction "Extract/ml/C09/dispatch.ml" run.
